@@ -166,6 +166,19 @@ theorem compile_frame (env : Nat → V) (v : View A V) (K : List (Fn A V)) (rest
     run (v.compile.reverse ++ K) (v.operandsOf.map env ++ rest) = run K (v.denote env :: rest) :=
   View.run_compile env v K rest h
 
+/-- `fn::apply(function, operands)` compiles (`static_assert(arity == n_operands)`, functor.hpp:833-835): the static arity of
+    the extracted composition is the number of extracted operands — for EVERY view tree whose nodes have as many operands
+    as their arity, sub-views in any position -/
+theorem compile_arity (v : View A V) (h : v.wellFormed = true) :
+    Comp.arity ⟨v.compile, []⟩ = (v.operandsOf.length : Int) := by
+  rw [Comp.arity_eq]
+  have := View.sumArity_compile v h
+  omega
+
+/-- the trees of `compile_correct` are among them -/
+theorem leftLinear_wellFormed (v : View A V) (h : v.leftLinear = true) : v.wellFormed = true :=
+  View.leftLinear_wellFormed v h
+
 /-- the extracted operands are the leaf arrays in reading order, one entry per occurrence -/
 theorem operandsOf_are_leaves (v : View A V) : v.operandsOf = v.leavesAcc [] := by
   rw [View.leavesAcc_eq]; simp
@@ -216,11 +229,21 @@ theorem generate_alias_collision : generateAlias [0, 0, 0] = generateAlias [0, 2
 
 /-! ### non-vacuity -/
 
+-- add(multiply(a,b), subtract(c, negative(d))): sub-views in both positions, 4 functors, static arity 4 = 4 leaves
+example :
+    let v : View Unit Nat := .node addV [] (.cons (.node mulV [] (.cons (.leaf 0) (.cons (.leaf 1) .nil)))
+      (.cons (.node mulV [] (.cons (.leaf 2) (.cons (.node negV [] (.cons (.leaf 0) .nil)) .nil))) .nil))
+    v.wellFormed = true ∧ v.leftLinear = false ∧ Comp.arity ⟨v.compile, []⟩ = 4 ∧ v.operandsOf = [0, 1, 2, 0] := by decide
+
 -- a depth-3 left-linear view: neg(add(mul(a,b), c))
 example :
     let v : View Unit Nat := .node negV [] (.cons (.node addV [] (.cons (.node mulV [] (.cons (.leaf 0) (.cons (.leaf 1) .nil))) (.cons (.leaf 2) .nil))) .nil)
     v.leftLinear = true ∧ v.denote envE = 989 ∧ valuesOf (applyComp ⟨v.compile, []⟩ (v.operandsOf.map envE)) = [989]
       ∧ v.operandsOf = [0, 1, 2] := by decide
+-- leftLinear_wellFormed on that tree's shape: a left-linear depth-2 tree is well formed
+example :
+    let v : View Unit Nat := .node addV [] (.cons (.node mulV [] (.cons (.leaf 0) (.cons (.leaf 1) .nil))) (.cons (.leaf 2) .nil))
+    v.leftLinear = true ∧ v.wellFormed = true := by decide
 -- currying a ternary functor in the splits 1+2 and 2+1
 example :
     let f : Fn Unit Nat := .ofFunctor ⟨3, fun _ xs => [xs.foldl (fun a b => 10 * a + b) 0]⟩
